@@ -230,7 +230,7 @@ pub fn check(mut ctx: Ctx, replay: Option<J>) -> ! {
     }
     let results = {
       let (corr, bases) = (&corr, &bases);
-      run_in_children_with("c19", &tlc.work_dir, corr.len(), 14, Duration::from_secs(30), &|i| {
+      run_in_children_with("c19", &tlc.work_dir, corr.len(), 14, Duration::from_secs(90), &|i| {
         let (b, k, a) = corr[i];
         json!({"text": corrupt(&bases[b], k, a)})
       })
